@@ -1,6 +1,6 @@
 """C17 — F2 matrices: reported row operations mirror the matrix's own; same row space; inverse
 decision structure; row/col sibling agreement; Mul forwarders."""
-from .. import hir, rops, rpair, paths
+from .. import minirust, hir, rops, rpair, paths
 from ..controls import fixture
 
 GAUSS = 'linalg::Mat2::gauss_helper'
@@ -618,6 +618,219 @@ def shape_descriptors(facts):
     return res
 
 
+# ---------------------------------------------------------------- exhaustive evaluation over all small matrices (round 2)
+
+M2 = 'linalg::Mat2'
+
+
+def _mk(rows):
+    return {'__struct__': M2, 'd': [list(r) for r in rows]}
+
+
+def _lcall(facts, key, args):
+    it = minirust.Interp(fuel=300000, facts=facts, inline=lambda c: c.startswith(('linalg::', '<linalg::', '<&linalg::', '<() as linalg::')))
+    return it.local_call(key, args)
+
+
+def _rows(m):
+    if not (isinstance(m, dict) and m.get('__struct__') == M2 and isinstance(m.get('d'), list) and all(isinstance(r, list) and all(x in (0, 1) for x in r) for r in m['d'])):
+        raise minirust.NoEval('not an F2 matrix: %r' % (m,))
+    return [tuple(r) for r in m['d']]
+
+
+def _rank(rows, ncols):
+    """brute-force rank over F2 (rows as tuples)"""
+    rs = [int(''.join(str(x) for x in r), 2) if r else 0 for r in rows]
+    rank = 0
+    for bit in reversed(range(ncols)):
+        piv = None
+        for i in range(rank, len(rs)):
+            if (rs[i] >> bit) & 1:
+                piv = i
+                break
+        if piv is None:
+            continue
+        rs[rank], rs[piv] = rs[piv], rs[rank]
+        for i in range(len(rs)):
+            if i != rank and (rs[i] >> bit) & 1:
+                rs[i] ^= rs[rank]
+        rank += 1
+    return rank
+
+
+def _mul(a, b):
+    if not a:
+        return []
+    k = len(b)
+    c = len(b[0]) if b else 0
+    return [tuple(sum(a[i][t] & b[t][j] for t in range(k)) % 2 for j in range(c)) for i in range(len(a))]
+
+
+def _echelon(rows, full):
+    """(ok, why): zero rows last, pivots strictly to the right, zeros below each pivot (and above it when `full`)"""
+    piv = []
+    seen_zero = False
+    for r in rows:
+        nz = [j for j, x in enumerate(r) if x]
+        if not nz:
+            seen_zero = True
+            continue
+        if seen_zero:
+            return False, 'a non-zero row follows a zero row'
+        if piv and nz[0] <= piv[-1]:
+            return False, 'pivots are not strictly increasing'
+        piv.append(nz[0])
+    for i, p_ in enumerate(piv):
+        for i2, r in enumerate(rows):
+            if i2 != i and r[p_] and (full or i2 > i):
+                return False, 'column %d of pivot row %d is not cleared in row %d' % (p_, i, i2)
+    return True, ''
+
+
+def _all_matrices(max_r, max_c):
+    import itertools
+    for r in range(0, max_r + 1):
+        for c in range(0, max_c + 1):
+            if r == 0 and c > 0:
+                continue          # a matrix without rows has no columns in this representation
+            for bits in itertools.product((0, 1), repeat=r * c):
+                yield r, c, [tuple(bits[i * c:(i + 1) * c]) for i in range(r)]
+
+
+def ev_linalg(facts, max_r=3, max_c=3):
+    """Every F2 matrix with at most max_r rows and max_c columns, every block size 1..cols, both reduction modes: the property's own clauses,
+    decided exhaustively against a brute-force model.  -> ({clause: (ok, counterexample)}, number of evaluations)"""
+    res = dict((k, [True, '']) for k in ('gauss/rank', 'gauss/echelon-form', 'gauss/same-row-space-via-reported-ops', 'gauss/default-entry-points', 'rank', 'inverse',
+                                         'nullspace', 'transpose', 'stack', 'mul'))
+    n = 0
+
+    def fail(k, msg):
+        if res[k][0]:
+            res[k] = [False, msg]
+
+    class _Skip(Exception):
+        pass
+
+    def call_(clause, key, args, what):
+        try:
+            return _lcall(facts, key, args)
+        except minirust.Panics as ex:
+            fail(clause, '%s panics (%s)' % (what, ex))
+            raise _Skip()
+    for r, c, rows in _all_matrices(max_r, max_c):
+        rk = _rank(rows, c)
+        ident = [tuple(1 if i == j else 0 for j in range(r)) for i in range(r)]
+        for full in (False, True):
+            for bs in range(1, c + 1):
+                m, x = _mk(rows), _mk(ident)
+                n += 1
+                try:
+                    got = call_('gauss/rank', M2 + '::gauss_x', [m, full, bs, x], 'gauss_x on %s with block size %d' % ([list(q) for q in rows], bs))
+                except _Skip:
+                    continue
+                mr, xr = _rows(m), _rows(x)
+                tag = 'matrix %s, block size %d, full_reduce=%s' % ([list(q) for q in rows], bs, str(full).lower())
+                if got != rk:
+                    fail('gauss/rank', '%s: returns %s, the rank is %d' % (tag, got, rk))
+                ok, why = _echelon(mr, full)
+                if not ok or len(mr) != r or any(len(q) != c for q in mr):
+                    fail('gauss/echelon-form', '%s: the result %s is not in %sechelon form: %s' % (tag, [list(q) for q in mr], 'reduced ' if full else '', why))
+                if _mul(xr, rows) != mr or _rank(xr, r) != r:
+                    fail('gauss/same-row-space-via-reported-ops', '%s: the reported row operations turn the identity into %s, which %s' % (
+                        tag, [list(q) for q in xr], 'is singular' if _rank(xr, r) != r else 'does not map the matrix to the result %s' % [list(q) for q in mr]))
+            m = _mk(rows)
+            n += 1
+            try:
+                got = call_('gauss/default-entry-points', M2 + '::gauss', [m, full], 'gauss on %s' % [list(q) for q in rows])
+            except _Skip:
+                continue
+            ok, why = _echelon(_rows(m), full)
+            if got != rk or not ok or _rank(list(_rows(m)) + list(rows), c) != rk:
+                fail('gauss/default-entry-points', 'gauss(%s) on %s returns %s and leaves %s (rank %d)' % (str(full).lower(), [list(q) for q in rows], got, [list(q) for q in _rows(m)], rk))
+        m = _mk(rows)
+        n += 1
+        try:
+            got = call_('rank', M2 + '::rank', [m], 'rank of %s' % [list(q) for q in rows])
+        except _Skip:
+            got = rk
+        if got != rk or _rows(m) != rows:
+            fail('rank', 'rank(%s) = %s (the rank is %d)%s' % ([list(q) for q in rows], got, rk, '' if _rows(m) == rows else ' and the matrix was modified'))
+        n += 1
+        invertible = r == c and rk == r
+        try:
+            inv = call_('inverse', M2 + '::inverse', [_mk(rows)], 'inverse of %s' % [list(q) for q in rows])
+        except _Skip:
+            inv = ('Some', _mk(ident)) if False else None
+        if inv is None:
+            okv = True       # the panic was recorded
+        elif invertible:
+            okv = isinstance(inv, tuple) and inv[0] == 'Some' and _mul(_rows(inv[1]), rows) == ident and _mul(rows, _rows(inv[1])) == ident
+        else:
+            okv = inv == minirust.NONE
+        if not okv:
+            fail('inverse', 'inverse(%s) = %s; the matrix is %s' % ([list(q) for q in rows], inv if not (isinstance(inv, tuple) and inv[0] == 'Some') else [list(q) for q in _rows(inv[1])], 'invertible' if invertible else 'not invertible'))
+        if r >= 1:
+            n += 1
+            try:
+                ns = call_('nullspace', M2 + '::nullspace', [_mk(rows)], 'nullspace of %s' % [list(q) for q in rows])
+            except _Skip:
+                ns = None
+            vs = []
+            okn = isinstance(ns, list)
+            for v in ns if okn else []:
+                vr = _rows(v)
+                okn = okn and len(vr) == 1 and len(vr[0]) == c
+                if okn:
+                    vs.append(vr[0])
+                    okn = all(sum(a & b for a, b in zip(row, vr[0])) % 2 == 0 for row in rows)
+            okn = okn and len(vs) == c - rk and _rank(vs, c) == len(vs)
+            if not okn and ns is not None:
+                fail('nullspace', 'nullspace(%s) = %s: must be %d independent vectors that the matrix annihilates' % ([list(q) for q in rows], [list(v) for v in vs], c - rk))
+        n += 1
+        want_t = [tuple(rows[i][j] for i in range(r)) for j in range(c)]
+        try:
+            t = call_('transpose', M2 + '::transpose', [_mk(rows)], 'transpose of %s' % [list(q) for q in rows])
+        except _Skip:
+            t = _mk(want_t)
+        if _rows(t) != want_t:
+            fail('transpose', 'transpose(%s) = %s' % ([list(q) for q in rows], [list(q) for q in _rows(t)]))
+    # stacking and multiplication: all pairs of matrices with at most 2 rows and 2 columns, and all 2x3 by a family of 3x2
+    small = [(r, c, rows) for r, c, rows in _all_matrices(2, 2) if r >= 1 and c >= 1]
+    extra_a = [(r, c, rows) for r, c, rows in _all_matrices(2, 3) if (r, c) == (2, 3)]
+    extra_b = [(3, 2, [(1, 0), (0, 1), (1, 1)]), (3, 2, [(1, 1), (1, 0), (0, 0)]), (3, 2, [(0, 1), (1, 1), (1, 0)]), (3, 2, [(1, 1), (1, 1), (0, 1)])]
+    mulkeys = [k for k in facts['fns'] if k.startswith(('<linalg::Mat2 as std::ops::Mul', '<&linalg::Mat2 as std::ops::Mul'))]
+    for (r1, c1, a), (r2, c2, b) in [(x, y) for x in small for y in small] + [(x, y) for x in extra_a for y in extra_b]:
+        if c1 == r2:
+            want = _mul(a, b)
+            for k in mulkeys:
+                n += 1
+                try:
+                    got = call_('mul', k, [_mk(a), _mk(b)], '%s on a %dx%d and a %dx%d matrix' % (k, r1, c1, r2, c2))
+                except _Skip:
+                    continue
+                if _rows(got) != want:
+                    fail('mul', '%s: %s * %s = %s, the F2 product is %s' % (k, [list(q) for q in a], [list(q) for q in b], [list(q) for q in _rows(got)], [list(q) for q in want]))
+        if (r1, c1) in ((1, 1), (1, 2), (2, 1), (2, 2)) and (r2, c2) in ((1, 1), (1, 2), (2, 1), (2, 2)):
+            if c1 == c2:
+                n += 1
+                try:
+                    got = call_('stack', M2 + '::vstack', [_mk(a), _mk(b)], 'vstack of two matrices with %d columns' % c1)
+                except _Skip:
+                    got = _mk(list(a) + list(b))
+                if _rows(got) != list(a) + list(b):
+                    fail('stack', 'vstack(%s, %s) = %s' % ([list(q) for q in a], [list(q) for q in b], [list(q) for q in _rows(got)]))
+            if r1 == r2:
+                ma = _mk(a)
+                n += 1
+                try:
+                    got = call_('stack', M2 + '::hstack', [ma, _mk(b)], 'hstack of two matrices with %d rows' % r1)
+                except _Skip:
+                    got = _mk([x + y for x, y in zip(a, b)])
+                if _rows(got) != [x + y for x, y in zip(a, b)] or _rows(ma) != list(a):
+                    fail('stack', 'hstack(%s, %s) = %s' % ([list(q) for q in a], [list(q) for q in b], [list(q) for q in _rows(got)]))
+    return dict((k, tuple(v)) for k, v in res.items()), n
+
+
 def run(ck):
     facts = ck.facts
     ck.decided('D1 every self.row_add(a,b) in gauss_helper is immediately mirrored by x.row_add(a,b) with identical operands (and no orphan mirror op)',
@@ -629,7 +842,20 @@ def run(ck):
                'the elimination, pivot-search and chunk-scan loops cover pivot_row+1..rows / 0..pivot_row / pivot_row..rows',
                'D6 nullspace: one vector per free variable, unit at the free variable, back substitution pairs mat[row][free_var] with entry pivot_col over pivot_cols.enumerate, read off the fully reduced clone; '
                'transpose exchanges dimensions and indices; id / unit_vector / zeros / ones / num_rows / num_cols / vstack / hstack descriptors; gauss / gauss_x / rank forward their arguments')
-    ck.not_decided('that the result is a (reduced) echelon form', 'rank / null-space values', 'algebraic laws of transpose/stack/mul as value equalities')
+    ck.not_decided('matrices larger than 3x4 as values (the block structure for sizes up to 24 is covered structurally by D1-D6)', 'gauss_with_proxy users outside linalg.rs')
+    # D0 (round 2): the property's own clauses, exhaustively over every matrix up to 3x3 (thorough tier: 3x4, the bound the property names)
+    try:
+        mc = 4 if ck.tier == 'thorough' else 3
+        sem, nev = ev_linalg(facts, 3, mc)
+        for name, (ok, cex) in sorted(sem.items()):
+            ck.ob('E3-exhaustive', 'Mat2/' + name, ok, ck.site(GAUSS if name.startswith('gauss') else M2 + '::' + name.split('/')[0]) if (name.startswith('gauss') or (M2 + '::' + name.split('/')[0]) in facts['fns']) else 'quizx/src/linalg.rs', cex, sample={'evaluations': nev})
+        ck.floor('E3-exhaustive-evaluations', nev, 9000)
+        ck.note('linalg: %d evaluations over every F2 matrix with at most 3 rows and %d columns, every block size, both reduction modes' % (nev, mc))
+    except (minirust.NoEval, minirust.Proceed, TypeError, KeyError, IndexError, AttributeError, ValueError) as ex:
+        if isinstance(ex, minirust.Panics):
+            ck.ob('E3-exhaustive', 'Mat2/no-panic', False, ck.site(GAUSS), 'some small matrix makes a routine panic: %s' % ex)
+        else:
+            ck.ob3('E3-exhaustive', 'Mat2/evaluable', None, ck.site(GAUSS), 'the F2 routines are not evaluable by the interpreter (%s): the exhaustive small-matrix clauses are not decided (the structural rules below still are)' % ex)
     f = ck.fn(GAUSS)
     pm = hir.parent_map(f['hir'])
     res = d1_mirror(f)
